@@ -74,6 +74,7 @@ class Config(object):
         self.ghost_hooks = {}
         self.py312 = True
         self.custom_types = {}
+        self.stable_cls = {}
 
 
 def mangle(name, owner):
@@ -534,6 +535,11 @@ class Engine(object):
                         for fname, lf2 in cfg.protected.items():
                             if lf2 == lf and fname in old and not fname.startswith("$"):
                                 keep.append(Val.id(z3.Select(old[fname], owner)))
+            sc = getattr(cfg, "stable_cls", {}).get(name)
+            if sc:
+                # field is immutable on objects of these classes (same field name is mutable elsewhere)
+                o = z3.Int("o!sc")
+                new = z3.Lambda([o], z3.If(z3.Or([cls_of(o) == self.tag(c) for c in sc]), z3.Select(a, o), z3.Select(new, o)))
             for k in keep:
                 new = z3.Store(new, k, z3.Select(a, k))
             st.heap[name] = new
@@ -1028,6 +1034,18 @@ class Engine(object):
     # =========================================================================================
     def call(self, st, fr, fn, args, kwargs, star, starkw, node):
         fn = self.resolve(st, fn)
+        if isinstance(star, TupleV):
+            args = list(args) + list(star.items)
+            star = None
+        if starkw is not None:
+            sk = self.resolve(st, starkw)
+            if isinstance(sk, Z) and sk.ty == "kwdict":
+                kd = st.objreg[self.concrete_id(sk.t)]
+                if kd.base is None:
+                    kwargs = dict(kwargs)
+                    for k_, v_ in kd.known.items():
+                        kwargs.setdefault(k_, v_)
+                    starkw = None
         if isinstance(fn, tuple) and fn and fn[0] == "$attrerror":
             yield st, Raise(self.new_exc(st, "AttributeError", "'super' object has no attribute %s" % fn[1]))
             return
